@@ -325,6 +325,122 @@ fn conv_case<T: Elem + Clone + PartialEq>(ctx: &mut Ctx, shape: (usize, usize)) 
             }
         }
     }
+    // the by-value iterator against std's own `vec::IntoIter` over the expected cells: every script of
+    // two steps over next / next_back / nth / nth_back (in-range, last, beyond) and one of seven ways to
+    // finish; items compared by identity, lengths after every step, skipped elements must be dropped
+    {
+        #[derive(Clone, Copy, Debug)]
+        enum S {
+            Next,
+            Back,
+            Nth(usize),
+            NthBack(usize),
+        }
+        let mut steps = vec![S::Next, S::Back];
+        let mut ns = vec![0usize, 1, 2, c, n.saturating_sub(1), n, n + 1, usize::MAX];
+        ns.sort();
+        ns.dedup();
+        for &k in &ns {
+            steps.push(S::Nth(k));
+            steps.push(S::NthBack(k));
+        }
+        let nsteps = steps.len();
+        let mut scripts: Vec<Vec<S>> = vec![vec![]];
+        for i in 0..nsteps {
+            scripts.push(vec![steps[i]]);
+            for j in 0..nsteps {
+                scripts.push(vec![steps[i], steps[j]]);
+            }
+        }
+        let thin = if matches!(ctx.scale, Scale::Native) { 1 } else { 23 };
+        for (si, script) in scripts.iter().enumerate() {
+            for fin in 0..7usize {
+                if (si * 7 + fin) % thin != 0 {
+                    continue;
+                }
+                ledger_reset();
+                kv_reset();
+                let (a, g) = build::<T>(c, r, &key_of);
+                let want = g.flat();
+                let mut ideal = (0..n).collect::<Vec<usize>>().into_iter();
+                let what = format!("shape {:?} script {:?} finish {}", shape, script, fin);
+                ctx.count("calls", 1);
+                let res = catches(|| {
+                    let mut it = a.into_iter();
+                    let mut held: Vec<T> = vec![];
+                    let mut ok = true;
+                    let same = |x: &Option<T>, i: &Option<usize>| match (x, i) {
+                        (None, None) => true,
+                        (Some(x), Some(i)) => T::IS_ZST || mc(x) == want[*i],
+                        _ => false,
+                    };
+                    for st in script {
+                        let (x, i) = match *st {
+                            S::Next => (it.next(), ideal.next()),
+                            S::Back => (it.next_back(), ideal.next_back()),
+                            S::Nth(k) => (it.nth(k), ideal.nth(k)),
+                            S::NthBack(k) => (it.nth_back(k), ideal.nth_back(k)),
+                        };
+                        ok &= same(&x, &i);
+                        held.extend(x);
+                        ok &= it.len() == ideal.len() && it.size_hint() == ideal.size_hint();
+                    }
+                    match fin {
+                        0 => drop(it),
+                        1 => {
+                            let rest: Vec<T> = it.collect();
+                            let irest: Vec<usize> = ideal.collect();
+                            ok &= rest.len() == irest.len() && rest.iter().zip(&irest).all(|(x, i)| T::IS_ZST || mc(x) == want[*i]);
+                            held.extend(rest);
+                        }
+                        2 => {
+                            let rest: Vec<T> = it.rev().collect();
+                            let irest: Vec<usize> = ideal.rev().collect();
+                            ok &= rest.len() == irest.len() && rest.iter().zip(&irest).all(|(x, i)| T::IS_ZST || mc(x) == want[*i]);
+                            held.extend(rest);
+                        }
+                        3 => ok &= it.count() == ideal.count(),
+                        4 => {
+                            let (x, i) = (it.last(), ideal.last());
+                            ok &= same(&x, &i);
+                            held.extend(x);
+                        }
+                        5 => {
+                            let seen: Vec<Mc> = it.fold(vec![], |mut v, x| {
+                                v.push(mc(&x));
+                                v
+                            });
+                            let iseen: Vec<usize> = ideal.collect();
+                            ok &= seen.len() == iseen.len() && seen.iter().zip(&iseen).all(|(x, i)| T::IS_ZST || *x == want[*i]);
+                        }
+                        _ => {
+                            let seen: Vec<Mc> = it.rfold(vec![], |mut v, x| {
+                                v.push(mc(&x));
+                                v
+                            });
+                            let iseen: Vec<usize> = ideal.rev().collect();
+                            ok &= seen.len() == iseen.len() && seen.iter().zip(&iseen).all(|(x, i)| T::IS_ZST || *x == want[*i]);
+                        }
+                    }
+                    for h in &held {
+                        if T::OWNS && !T::IS_ZST && !is_live(h.uid()) {
+                            ok = false;
+                        }
+                    }
+                    ok
+                });
+                match res {
+                    Ok(true) => {
+                        ctx.nontrivial(("into_iter-script", shape, si, fin, T::NAME));
+                    }
+                    Ok(false) => ctx.violation("into_iter", "conv:sequence", what),
+                    Err(m) => ctx.violation("into_iter", "conv:panicked", format!("{}: {}", what, m)),
+                }
+                check_double_drops(ctx, "into_iter");
+                check_no_leak(ctx, "into_iter");
+            }
+        }
+    }
     // clone: equal and independent
     {
         ledger_reset();
